@@ -57,12 +57,13 @@ SelPols == {"preferRC4", "preferPlain", "onlyPlain", "onlyRC4", "both", "none"}
 \* well-formed scenarios
 ScOK(s) ==
     /\ s.dk \in DKinds /\ s.ck \in CKinds /\ s.keymode \in KeyModes /\ s.selpol \in SelPols
-    /\ s.enable \in BOOLEAN /\ s.force \in BOOLEAN /\ s.forceIn \in BOOLEAN /\ s.trunc \in BOOLEAN
+    /\ s.enable \in BOOLEAN /\ s.force \in BOOLEAN /\ s.forceIn \in BOOLEAN /\ s.trunc \in BOOLEAN /\ s.loose \in BOOLEAN
     /\ s.provide \in 0 .. 3 /\ s.ia \in Nat
     /\ (s.ck = "raw" => s.dk = "raw")                  \* bare mse.Stream endpoints, no BitTorrent handshake
     /\ ((s.ck # "raw" /\ s.dk = "raw") => s.ia = BT)   \* against btconn a scripted initiator sends the BT handshake as IA
     /\ (s.dk = "rain" => ~(~s.enable /\ s.force))      \* "disable" and "force" are not both set
     /\ (s.trunc => s.ck \in {"mse", "any"})
+    /\ (s.loose => s.ck \in {"raw", "mse", "any"})     \* a hostile scripted receiver: sends crypto_select unvalidated
 
 HasBT   == sc.ck # "raw"                            \* a BitTorrent handshake follows the negotiation
 UseMSE  == sc.dk = "raw" \/ (sc.dk = "rain" /\ sc.enable)
@@ -187,7 +188,7 @@ A4 ==
            found  == ScanFinds(ba.r, marker, 8, ScanA - d.fr)
        IN \/ /\ Avail(ba) >= need /\ found
              /\ ba' = Take(ba, need)
-             /\ d' = [d EXCEPT !.pc = "a5"]
+             /\ d' = [d EXCEPT !.pc = "a5", !.fr = 0]        \* the first-read size is irrelevant from here on
              /\ UNCHANGED <<sc, att, c, ab>>
           \/ /\ Avail(ba) >= need /\ ~found
              /\ MseFailD(d, "sync", ab, Take(ba, need))
@@ -282,7 +283,7 @@ B3 ==
            found  == ScanFinds(ab.r, marker, 20, ScanB - c.fr)
        IN \/ /\ Avail(ab) >= need /\ found
              /\ ab' = Take(ab, need)
-             /\ c' = [c EXCEPT !.pc = "b4"]
+             /\ c' = [c EXCEPT !.pc = "b4", !.fr = 0]
              /\ UNCHANGED <<sc, att, d, ba>>
           \/ /\ Avail(ab) >= need /\ ~found
              /\ CFail(c, "sync", Take(ab, need), ba)
@@ -298,8 +299,8 @@ B4 ==
        IN \/ /\ Avail(ab) >= full
              /\ IF sc.keymode = "unknown" THEN CFail(c, "skey", Take(ab, 20), ba)
                 ELSE IF sc.keymode = "wrong" THEN CFail(c, "vc", Take(ab, 28), ba)
-                ELSE IF s = 0 THEN CFail([c EXCEPT !.cipher = s], "noselect", Take(ab, 32), ba)
-                ELSE IF ~IsPow2(s) \/ ~Has(Provide, s) THEN CFail([c EXCEPT !.cipher = s], "badselect", Take(ab, 32), ba)
+                ELSE IF ~sc.loose /\ s = 0 THEN CFail([c EXCEPT !.cipher = s], "noselect", Take(ab, 32), ba)
+                ELSE IF ~sc.loose /\ (~IsPow2(s) \/ ~Has(Provide, s)) THEN CFail([c EXCEPT !.cipher = s], "badselect", Take(ab, 32), ba)
                 ELSE /\ ab' = Take(ab, full)
                      /\ c' = [c EXCEPT !.pc = "b5", !.sel = s, !.cipher = s, !.dec = 14 + d.padC + 2 + IA,
                                        !.wm = "rc4", !.rm = "rc4", !.iabuf = IA]
@@ -335,16 +336,17 @@ InRange(p) == p \in -1 .. 511          \* pads of the code: rand.Int(512) = 0..5
 \* @obligation C12.sync   for pads within 0..511 the marker is always found within the bound
 SyncFound == (InRange(d.padA) /\ InRange(c.padB)) => (d.res # "sync" /\ c.res # "sync")
 
-\* @obligation C12.agree  both fail, or both complete with the same cipher
-Agree == Done => \/ d.res # "ok" /\ c.res # "ok"
-                 \/ BothOK /\ d.cipher = c.cipher
+\* @obligation C12.agree  both fail, or both complete with the same cipher.  (A hostile receiver may "complete"
+\*                        alone; the code under test - the initiator - never does.)
+Agree == Done => /\ (d.res = "ok" => (c.res = "ok" /\ d.cipher = c.cipher))
+                 /\ (~sc.loose => (c.res = "ok" => d.res = "ok"))
 
 \* @obligation C12.cipher  the agreed cipher is a single offered method and it is the one in use
 CipherOK ==
     /\ (d.res = "ok" /\ d.cipher # 0) => (IsPow2(d.cipher) /\ Has(Provide, d.cipher) /\ d.wm = Mode(d.cipher) /\ d.rm = d.wm)
-    /\ (c.res = "ok" /\ c.cipher # 0) => (IsPow2(c.cipher) /\ Has(Provide, c.cipher) /\ c.wm = Mode(c.cipher) /\ c.rm = c.wm)
+    /\ (c.res = "ok" /\ c.cipher # 0 /\ ~sc.loose) => (IsPow2(c.cipher) /\ Has(Provide, c.cipher) /\ c.wm = Mode(c.cipher) /\ c.rm = c.wm)
     /\ (d.res = "ok" /\ d.cipher = 0) => (d.wm = "raw" /\ d.rm = "raw")
-    /\ (c.res = "ok" /\ c.cipher = 0) => (c.wm = "raw" /\ c.rm = "raw")
+    /\ (c.res = "ok" /\ c.cipher = 0 /\ ~sc.loose) => (c.wm = "raw" /\ c.rm = "raw")
 
 \* @obligation C12.stream  same mode and key-stream position in both directions, nothing left unread:
 \*                         the next byte either side reads is the first byte the other writes next
@@ -356,7 +358,7 @@ StreamOK == (Done /\ BothOK) =>
 \* @obligation C12.payload  the initial payload is delivered completely; more than 65535 bytes are refused
 PayloadOK ==
     /\ (UseMSE /\ att = 1 /\ IA > MaxIA) => d.res # "ok"
-    /\ (c.res = "ok" /\ c.cipher # 0) => c.iabuf = IA
+    /\ (c.res = "ok" /\ c.sel # 0) => c.iabuf = IA
 
 \* @obligation C12.wrongkey  without the right SKEY no MSE handshake completes on either side
 WrongKey == (sc.keymode # "same") => /\ (d.res = "ok" => d.cipher = 0)
